@@ -37,10 +37,12 @@ VARIABLES
   callListed, \* callListed[nonce]: was the callee listed when the RPC was issued
   pathOut,  \* pathOut[<<a, b>>]: when a last sent a datagram towards b (delivered or not)
   pathIn,   \* pathIn[<<a, b>>]: when a datagram from a was last let through to b
-  closingH  \* closingH[n]: connection whose handler on n saw it end and has not removed it yet (0: none)
+  closingH, \* closingH[n]: connection whose handler on n saw it end and has not removed it yet (0: none)
+  beginT,   \* beginT[n]: when n's manager left its event loop to shut down
+  shutIdle  \* shutIdle[n]: the configured shutdown_idle_timeout (ms)
 
 tvars == <<l, now, pendEv, conns, tasks, spawnQ, nextTick, phase, subs, subPos, addrNode,
-           lastAdd, replies, closeT, faultT, idle, ka, runStart, lastSend, quietLen, callListed, pathOut, pathIn, closingH>>
+           lastAdd, replies, closeT, faultT, idle, ka, runStart, lastSend, quietLen, callListed, pathOut, pathIn, closingH, beginT, shutIdle>>
 allvars == <<vars, tvars>>
 
 TraceNoLimit == -1
@@ -75,7 +77,7 @@ TraceInit ==
   /\ pendEv = Empty /\ conns = Empty /\ tasks = Empty /\ spawnQ = Empty
   /\ nextTick = Empty /\ phase = Empty /\ subs = Empty /\ subPos = Empty
   /\ addrNode = Empty /\ lastAdd = Empty /\ replies = Empty /\ closeT = Empty
-  /\ faultT = -1 /\ idle = Empty /\ ka = Empty /\ runStart = 0 /\ lastSend = Empty /\ quietLen = Empty /\ callListed = Empty /\ pathOut = Empty /\ pathIn = Empty /\ closingH = Empty
+  /\ faultT = -1 /\ idle = Empty /\ ka = Empty /\ runStart = 0 /\ lastSend = Empty /\ quietLen = Empty /\ callListed = Empty /\ pathOut = Empty /\ pathIn = Empty /\ closingH = Empty /\ beginT = Empty /\ shutIdle = Empty
 
 -----------------------------------------------------------------------------
 Cur == Rec[l]
@@ -101,7 +103,7 @@ TrReset ==
   /\ pendEv' = Empty /\ conns' = Empty /\ tasks' = Empty /\ spawnQ' = Empty
   /\ nextTick' = Empty /\ phase' = Empty /\ subs' = Empty /\ subPos' = Empty
   /\ addrNode' = Empty /\ lastAdd' = Empty /\ replies' = Empty /\ closeT' = Empty
-  /\ faultT' = -1 /\ idle' = Empty /\ ka' = Empty /\ runStart' = l /\ lastSend' = Empty /\ quietLen' = Empty /\ callListed' = Empty /\ pathOut' = Empty /\ pathIn' = Empty /\ closingH' = Empty
+  /\ faultT' = -1 /\ idle' = Empty /\ ka' = Empty /\ runStart' = l /\ lastSend' = Empty /\ quietLen' = Empty /\ callListed' = Empty /\ pathOut' = Empty /\ pathIn' = Empty /\ closingH' = Empty /\ beginT' = Empty /\ shutIdle' = Empty
 
 TrNodeStart ==
   /\ IsEvent("obs.node_start")
@@ -111,10 +113,11 @@ TrNodeStart ==
   /\ addrNode' = With(addrNode, Cur.addr, N)
   /\ idle' = With(idle, N, Get(Cur, "idle_ms", 10000))
   /\ ka' = With(ka, N, Get(Cur, "keepalive_ms", 0))
+  /\ shutIdle' = With(shutIdle, N, Get(Cur, "shutdown_idle_ms", 60000))
   /\ UNCHANGED <<runStart, lastSend, quietLen, callListed, pathOut, pathIn, closingH>>
   /\ cfg' = With(cfg, N, [limit |-> NoLimit, interval |-> 0, step |-> 0, maxb |-> 0, cto |-> 0, cap |-> 0])
   /\ nextTick' = With(nextTick, N, 0)
-  /\ UNCHANGED <<conns, tasks, subs, closeT, faultT>>
+  /\ UNCHANGED <<conns, tasks, subs, closeT, faultT, beginT>>
 
 (* an address at which an adversary (or nobody) listens *)
 TrAddr ==
@@ -122,7 +125,7 @@ TrAddr ==
   /\ addrNode' = With(addrNode, Cur.addr, Cur.who)
   /\ UNCHANGED <<vars, pendEv, conns, tasks, spawnQ, nextTick, phase, subs, subPos, lastAdd,
                  replies, closeT, faultT, idle, ka, runStart, lastSend, quietLen, callListed,
-                 pathOut, pathIn, closingH>>
+                 pathOut, pathIn, closingH, beginT, shutIdle>>
 
 TrMgrStart ==
   /\ IsEvent("mgr.start")
@@ -137,7 +140,8 @@ TrMgrStart ==
   /\ nextTick' = [nextTick EXCEPT ![N] = Cur.t]
   /\ UNCHANGED <<connVars, known, pendingDial, bgResult, backoff, pendingConn, pendEv, conns,
                  tasks, spawnQ, subs, subPos, addrNode, lastAdd, replies, closeT, faultT, idle,
-                 ka, runStart, lastSend, quietLen, callListed, pathOut, pathIn, closingH>>
+                 ka, runStart, lastSend, quietLen, callListed, pathOut, pathIn, closingH, beginT,
+                 shutIdle>>
 
 TrKnownInsert ==
   /\ IsEvent("obs.known_insert")
@@ -145,7 +149,7 @@ TrKnownInsert ==
   /\ UNCHANGED <<connVars, cfg, pendingDial, bgResult, backoff, pendingConn, pendEv, conns,
                  tasks, spawnQ, nextTick, phase, subs, subPos, addrNode, lastAdd, replies,
                  closeT, faultT, idle, ka, runStart, lastSend, quietLen, callListed, pathOut,
-                 pathIn, closingH>>
+                 pathIn, closingH, beginT, shutIdle>>
 
 TrKnownRemove ==
   /\ IsEvent("obs.known_remove")
@@ -153,14 +157,14 @@ TrKnownRemove ==
   /\ UNCHANGED <<connVars, cfg, pendingDial, bgResult, backoff, pendingConn, pendEv, conns,
                  tasks, spawnQ, nextTick, phase, subs, subPos, addrNode, lastAdd, replies,
                  closeT, faultT, idle, ka, runStart, lastSend, quietLen, callListed, pathOut,
-                 pathIn, closingH>>
+                 pathIn, closingH, beginT, shutIdle>>
 
 TrFault ==
   /\ IsEvent("obs.fault")
   /\ faultT' = Cur.t
   /\ UNCHANGED <<vars, pendEv, conns, tasks, spawnQ, nextTick, phase, subs, subPos, addrNode,
                  lastAdd, replies, closeT, idle, ka, runStart, lastSend, quietLen, callListed,
-                 pathOut, pathIn, closingH>>
+                 pathOut, pathIn, closingH, beginT, shutIdle>>
 
 -----------------------------------------------------------------------------
 (* The connectivity check *)
@@ -198,7 +202,7 @@ TrTick ==
                              [bg |-> TRUE, peer |-> Cur.dials[i].peer, addr |-> Cur.dials[i].addr]]]
   /\ UNCHANGED <<connVars, pendEv, conns, tasks, phase, subs, subPos, addrNode, lastAdd, replies,
                  closeT, faultT, idle, ka, runStart, lastSend, quietLen, callListed, pathOut,
-                 pathIn, closingH>>
+                 pathIn, closingH, beginT, shutIdle>>
 
 TrConnectReq ==
   /\ IsEvent("mgr.connect_req")
@@ -208,7 +212,8 @@ TrConnectReq ==
                   Append(@, [bg |-> FALSE, peer |-> Get(Cur, "expected", -1), addr |-> Cur.addr])]
   /\ UNCHANGED <<connVars, known, cfg, pendingDial, bgResult, backoff, pendEv, conns, tasks,
                  nextTick, phase, subs, subPos, addrNode, lastAdd, replies, closeT, faultT, idle,
-                 ka, runStart, lastSend, quietLen, callListed, pathOut, pathIn, closingH>>
+                 ka, runStart, lastSend, quietLen, callListed, pathOut, pathIn, closingH, beginT,
+                 shutIdle>>
 
 -----------------------------------------------------------------------------
 (* Outbound: dial_peer_task *)
@@ -225,7 +230,7 @@ TrDialStart ==
   /\ spawnQ' = [spawnQ EXCEPT ![N] = Tail(@)]
   /\ UNCHANGED <<vars, pendEv, conns, nextTick, phase, subs, subPos, addrNode, lastAdd, replies,
                  closeT, faultT, idle, ka, runStart, lastSend, quietLen, callListed, pathOut,
-                 pathIn, closingH>>
+                 pathIn, closingH, beginT, shutIdle>>
 
 (* TLS finished on the dialer: it accepted the certificate of the party at  *)
 (* the address.  PinSound / Authentic: the identity it attributes is the    *)
@@ -244,7 +249,7 @@ TrDialTls ==
   /\ tasks' = [tasks EXCEPT ![Cur.task].gid = Cur.gid]
   /\ UNCHANGED <<vars, pendEv, spawnQ, nextTick, phase, subs, subPos, addrNode, lastAdd, replies,
                  closeT, faultT, idle, ka, runStart, lastSend, quietLen, callListed, pathOut,
-                 pathIn, closingH>>
+                 pathIn, closingH, beginT, shutIdle>>
 
 TrDialDone ==
   /\ IsEvent("dial.done")
@@ -264,7 +269,7 @@ TrDialDone ==
              ELSE UNCHANGED <<closedL, closeT>>
   /\ UNCHANGED <<dialVars, active, evlog, handlers, pendEv, conns, spawnQ, nextTick, phase, subs,
                  subPos, addrNode, lastAdd, replies, faultT, idle, ka, runStart, lastSend,
-                 quietLen, callListed, pathOut, pathIn, closingH>>
+                 quietLen, callListed, pathOut, pathIn, closingH, beginT, shutIdle>>
 
 -----------------------------------------------------------------------------
 (* Inbound: handle_incoming / handle_incoming_task *)
@@ -278,7 +283,7 @@ TrAdvDialTls ==
                     ackSent |-> FALSE, ackRead |-> FALSE, ackConf |-> FALSE])
   /\ UNCHANGED <<vars, pendEv, tasks, spawnQ, nextTick, phase, subs, subPos, addrNode, lastAdd,
                  replies, closeT, faultT, idle, ka, runStart, lastSend, quietLen, callListed,
-                 pathOut, pathIn, closingH>>
+                 pathOut, pathIn, closingH, beginT, shutIdle>>
 
 TrInAccepted ==
   /\ IsEvent("in.accepted")
@@ -288,7 +293,7 @@ TrInAccepted ==
   /\ UNCHANGED <<connVars, known, cfg, pendingDial, bgResult, backoff, pendEv, conns, tasks,
                  spawnQ, nextTick, phase, subs, subPos, addrNode, lastAdd, replies, closeT,
                  faultT, idle, ka, runStart, lastSend, quietLen, callListed, pathOut, pathIn,
-                 closingH>>
+                 closingH, beginT, shutIdle>>
 
 TrInStart ==
   /\ IsEvent("in.start")
@@ -298,7 +303,7 @@ TrInStart ==
                     gid |-> 0, fin |-> "no"])
   /\ UNCHANGED <<vars, pendEv, conns, spawnQ, nextTick, phase, subs, subPos, addrNode, lastAdd,
                  replies, closeT, faultT, idle, ka, runStart, lastSend, quietLen, callListed,
-                 pathOut, pathIn, closingH>>
+                 pathOut, pathIn, closingH, beginT, shutIdle>>
 
 (* TLS finished on the listener.  In TLS 1.3 the client finishes first, so  *)
 (* the connection is already known from its dialer; the identity the        *)
@@ -314,7 +319,7 @@ TrInTls ==
   /\ tasks' = [tasks EXCEPT ![Cur.task].gid = Cur.gid]
   /\ UNCHANGED <<vars, pendEv, spawnQ, nextTick, phase, subs, subPos, addrNode, lastAdd, replies,
                  closeT, faultT, idle, ka, runStart, lastSend, quietLen, callListed, pathOut,
-                 pathIn, closingH>>
+                 pathIn, closingH, beginT, shutIdle>>
 
 TrAdmission ==
   /\ IsEvent("in.admission")
@@ -332,7 +337,7 @@ TrAdmission ==
      ELSE UNCHANGED <<closedL, closeT>>
   /\ UNCHANGED <<dialVars, active, evlog, handlers, pendEv, tasks, spawnQ, nextTick, phase, subs,
                  subPos, addrNode, lastAdd, replies, faultT, idle, ka, runStart, lastSend,
-                 quietLen, callListed, pathOut, pathIn, closingH>>
+                 quietLen, callListed, pathOut, pathIn, closingH, beginT, shutIdle>>
 
 TrAckSent ==
   /\ IsEvent("hs.ack_sent")
@@ -340,7 +345,7 @@ TrAckSent ==
   /\ conns' = [conns EXCEPT ![Cur.gid].ackSent = TRUE]
   /\ UNCHANGED <<vars, pendEv, tasks, spawnQ, nextTick, phase, subs, subPos, addrNode, lastAdd,
                  replies, closeT, faultT, idle, ka, runStart, lastSend, quietLen, callListed,
-                 pathOut, pathIn, closingH>>
+                 pathOut, pathIn, closingH, beginT, shutIdle>>
 
 TrAckRead ==
   /\ IsEvent("hs.ack_read")
@@ -350,7 +355,7 @@ TrAckRead ==
   /\ conns' = [conns EXCEPT ![Cur.gid].ackRead = TRUE]
   /\ UNCHANGED <<vars, pendEv, tasks, spawnQ, nextTick, phase, subs, subPos, addrNode, lastAdd,
                  replies, closeT, faultT, idle, ka, runStart, lastSend, quietLen, callListed,
-                 pathOut, pathIn, closingH>>
+                 pathOut, pathIn, closingH, beginT, shutIdle>>
 
 TrAckConfirmed ==
   /\ IsEvent("hs.ack_confirmed")
@@ -358,7 +363,7 @@ TrAckConfirmed ==
   /\ conns' = [conns EXCEPT ![Cur.gid].ackConf = TRUE]
   /\ UNCHANGED <<vars, pendEv, tasks, spawnQ, nextTick, phase, subs, subPos, addrNode, lastAdd,
                  replies, closeT, faultT, idle, ka, runStart, lastSend, quietLen, callListed,
-                 pathOut, pathIn, closingH>>
+                 pathOut, pathIn, closingH, beginT, shutIdle>>
 
 TrInDone ==
   /\ IsEvent("in.done")
@@ -377,7 +382,7 @@ TrInDone ==
              ELSE UNCHANGED <<closedL, closeT>>
   /\ UNCHANGED <<dialVars, active, evlog, handlers, pendEv, conns, spawnQ, nextTick, phase, subs,
                  subPos, addrNode, lastAdd, replies, faultT, idle, ka, runStart, lastSend,
-                 quietLen, callListed, pathOut, pathIn, closingH>>
+                 quietLen, callListed, pathOut, pathIn, closingH, beginT, shutIdle>>
 
 -----------------------------------------------------------------------------
 (* The active set: every operation logs while holding the write lock *)
@@ -389,7 +394,7 @@ TrApEvent ==
   /\ pendEv' = [pendEv EXCEPT ![N] = Append(@, EvOf(Cur))]
   /\ UNCHANGED <<vars, conns, tasks, spawnQ, nextTick, phase, subs, subPos, addrNode, lastAdd,
                  replies, closeT, faultT, idle, ka, runStart, lastSend, quietLen, callListed,
-                 pathOut, pathIn, closingH>>
+                 pathOut, pathIn, closingH, beginT, shutIdle>>
 
 (* add_peer: only for a connecting task of this node that finished Ok       *)
 TrApAdd ==
@@ -410,7 +415,7 @@ TrApAdd ==
   /\ lastAdd' = [lastAdd EXCEPT ![N] = [gid |-> Cur.gid, outcome |-> Cur.outcome]]
   /\ UNCHANGED <<dialVars, conns, tasks, spawnQ, nextTick, phase, subs, subPos, addrNode,
                  replies, faultT, idle, ka, runStart, lastSend, quietLen, callListed, pathOut,
-                 pathIn, closingH>>
+                 pathIn, closingH, beginT, shutIdle>>
 
 (* handle_connecting_result, after add_peer and before the reply            *)
 TrMgrResult ==
@@ -434,7 +439,7 @@ TrMgrResult ==
   /\ lastAdd' = [lastAdd EXCEPT ![N] = [gid |-> 0, outcome |-> "-"]]
   /\ UNCHANGED <<connVars, known, cfg, pendingDial, backoff, pendEv, conns, spawnQ, nextTick,
                  phase, subs, subPos, addrNode, closeT, faultT, idle, ka, runStart, lastSend,
-                 quietLen, callListed, pathOut, pathIn, closingH>>
+                 quietLen, callListed, pathOut, pathIn, closingH, beginT, shutIdle>>
 
 TrApRemove ==
   /\ IsEvent("ap.remove")
@@ -448,7 +453,7 @@ TrApRemove ==
   /\ pendEv' = [pendEv EXCEPT ![N] = <<>>]
   /\ UNCHANGED <<dialVars, conns, tasks, spawnQ, nextTick, phase, subs, subPos, addrNode,
                  lastAdd, replies, faultT, idle, ka, runStart, lastSend, quietLen, callListed,
-                 pathOut, pathIn, closingH>>
+                 pathOut, pathIn, closingH, beginT, shutIdle>>
 
 (* The handler of connection hgid ends.  Why it may end (the environment    *)
 (* must have been able to cause it) is checked on the preceding h.closing.  *)
@@ -467,14 +472,14 @@ TrApRemoveId ==
   /\ closingH' = With(closingH, N, 0)
   /\ UNCHANGED <<dialVars, conns, tasks, spawnQ, nextTick, phase, subs, subPos, addrNode,
                  lastAdd, replies, faultT, idle, ka, runStart, lastSend, quietLen, callListed,
-                 pathOut, pathIn>>
+                 pathOut, pathIn, beginT, shutIdle>>
 
 TrHStart ==
   /\ IsEvent("h.start")
   /\ Cur.gid \in handlers[N]
   /\ UNCHANGED <<vars, pendEv, conns, tasks, spawnQ, nextTick, phase, subs, subPos, addrNode,
                  lastAdd, replies, closeT, faultT, idle, ka, runStart, lastSend, quietLen,
-                 callListed, pathOut, pathIn, closingH>>
+                 callListed, pathOut, pathIn, closingH, beginT, shutIdle>>
 
 (* the handler saw its connection end: who can have caused that?            *)
 PeerGone(n, g) ==
@@ -509,7 +514,7 @@ TrHClosing ==
   /\ closingH' = With(closingH, N, Cur.gid)
   /\ UNCHANGED <<vars, pendEv, conns, tasks, spawnQ, nextTick, phase, subs, subPos, addrNode,
                  lastAdd, replies, closeT, faultT, idle, ka, runStart, lastSend, quietLen,
-                 callListed, pathOut, pathIn>>
+                 callListed, pathOut, pathIn, beginT, shutIdle>>
 
 -----------------------------------------------------------------------------
 (* Subscriptions and listings as the application sees them *)
@@ -521,7 +526,7 @@ TrApSubscribe ==
   /\ subPos' = [subPos EXCEPT ![N] = Len(evlog[N])]
   /\ UNCHANGED <<vars, pendEv, conns, tasks, spawnQ, nextTick, phase, subs, addrNode, lastAdd,
                  replies, closeT, faultT, idle, ka, runStart, lastSend, quietLen, callListed,
-                 pathOut, pathIn, closingH>>
+                 pathOut, pathIn, closingH, beginT, shutIdle>>
 
 TrObsSubscribe ==
   /\ IsEvent("obs.subscribe")
@@ -529,7 +534,7 @@ TrObsSubscribe ==
   /\ subs' = With(subs, Cur.sub, [node |-> N, pos |-> subPos[N]])
   /\ UNCHANGED <<vars, pendEv, conns, tasks, spawnQ, nextTick, phase, subPos, addrNode, lastAdd,
                  replies, closeT, faultT, idle, ka, runStart, lastSend, quietLen, callListed,
-                 pathOut, pathIn, closingH>>
+                 pathOut, pathIn, closingH, beginT, shutIdle>>
 
 (* a subscriber receives exactly the log, in order, from its position       *)
 TrObsEvent ==
@@ -540,7 +545,7 @@ TrObsEvent ==
   /\ subs' = [subs EXCEPT ![Cur.sub].pos = @ + 1]
   /\ UNCHANGED <<vars, pendEv, conns, tasks, spawnQ, nextTick, phase, subPos, addrNode, lastAdd,
                  replies, closeT, faultT, idle, ka, runStart, lastSend, quietLen, callListed,
-                 pathOut, pathIn, closingH>>
+                 pathOut, pathIn, closingH, beginT, shutIdle>>
 
 (* end of stream: only after shutdown, and nothing was withheld             *)
 TrSubClosed ==
@@ -551,7 +556,7 @@ TrSubClosed ==
   /\ subs' = Without(subs, Cur.sub)
   /\ UNCHANGED <<vars, pendEv, conns, tasks, spawnQ, nextTick, phase, subPos, addrNode, lastAdd,
                  replies, closeT, faultT, idle, ka, runStart, lastSend, quietLen, callListed,
-                 pathOut, pathIn, closingH>>
+                 pathOut, pathIn, closingH, beginT, shutIdle>>
 
 TrObsPeers ==
   /\ IsEvent("obs.peers")
@@ -559,7 +564,7 @@ TrObsPeers ==
   /\ Len(Cur.peers) = Cardinality(SeqToSet(Cur.peers))
   /\ UNCHANGED <<vars, pendEv, conns, tasks, spawnQ, nextTick, phase, subs, subPos, addrNode,
                  lastAdd, replies, closeT, faultT, idle, ka, runStart, lastSend, quietLen,
-                 callListed, pathOut, pathIn, closingH>>
+                 callListed, pathOut, pathIn, closingH, beginT, shutIdle>>
 
 (* the result an application got from connect(): one of the replies sent    *)
 TrConnectResult ==
@@ -571,7 +576,7 @@ TrConnectResult ==
   /\ Cur.ok /\ Has(Cur, "expected") => Cur.peer = Cur.expected
   /\ UNCHANGED <<vars, pendEv, conns, tasks, spawnQ, nextTick, phase, subs, subPos, addrNode,
                  lastAdd, closeT, faultT, idle, ka, runStart, lastSend, quietLen, callListed,
-                 pathOut, pathIn, closingH>>
+                 pathOut, pathIn, closingH, beginT, shutIdle>>
 
 (* connect() on a network that is shut down fails without reaching the manager *)
 TrConnectRefused ==
@@ -579,7 +584,7 @@ TrConnectRefused ==
   /\ phase[N] \in {"closing", "done"}
   /\ UNCHANGED <<vars, pendEv, conns, tasks, spawnQ, nextTick, phase, subs, subPos, addrNode,
                  lastAdd, replies, closeT, faultT, idle, ka, runStart, lastSend, quietLen,
-                 callListed, pathOut, pathIn, closingH>>
+                 callListed, pathOut, pathIn, closingH, beginT, shutIdle>>
 
 (* a connect() whose dial task was aborted by shutdown: the caller gets an error *)
 TrConnectAborted ==
@@ -587,7 +592,7 @@ TrConnectAborted ==
   /\ phase[N] \in {"closing", "done"}
   /\ UNCHANGED <<vars, pendEv, conns, tasks, spawnQ, nextTick, phase, subs, subPos, addrNode,
                  lastAdd, replies, closeT, faultT, idle, ka, runStart, lastSend, quietLen,
-                 callListed, pathOut, pathIn, closingH>>
+                 callListed, pathOut, pathIn, closingH, beginT, shutIdle>>
 
 -----------------------------------------------------------------------------
 (* Shutdown *)
@@ -598,9 +603,10 @@ TrShutBegin ==
   /\ IsEvent("shut.begin")
   /\ phase[N] = "running"
   /\ phase' = [phase EXCEPT ![N] = "closing"]
+  /\ beginT' = With(beginT, N, Cur.t)
   /\ UNCHANGED <<vars, pendEv, conns, tasks, spawnQ, nextTick, subs, subPos, addrNode, lastAdd,
                  replies, closeT, faultT, idle, ka, runStart, lastSend, quietLen, callListed,
-                 pathOut, pathIn, closingH>>
+                 pathOut, pathIn, closingH, shutIdle>>
 
 (* endpoint.close(): every connection of this endpoint is closed            *)
 TrShutClosed ==
@@ -611,7 +617,7 @@ TrShutClosed ==
   /\ Closes(N, ConnsOf(N))
   /\ UNCHANGED <<dialVars, active, evlog, handlers, pendEv, conns, tasks, spawnQ, nextTick,
                  phase, subs, subPos, addrNode, lastAdd, replies, faultT, idle, ka, runStart,
-                 lastSend, quietLen, callListed, pathOut, pathIn, closingH>>
+                 lastSend, quietLen, callListed, pathOut, pathIn, closingH, beginT, shutIdle>>
 
 (* pending connecting tasks are aborted: their results are never consumed   *)
 TrShutAborted ==
@@ -621,7 +627,7 @@ TrShutAborted ==
   /\ UNCHANGED <<connVars, known, cfg, pendingDial, bgResult, backoff, pendEv, conns, tasks,
                  spawnQ, nextTick, phase, subs, subPos, addrNode, lastAdd, replies, closeT,
                  faultT, idle, ka, runStart, lastSend, quietLen, callListed, pathOut, pathIn,
-                 closingH>>
+                 closingH, beginT, shutIdle>>
 
 (* all handlers joined: the active set must be empty (the code asserts it)  *)
 TrShutJoined ==
@@ -632,7 +638,43 @@ TrShutJoined ==
   /\ DOMAIN active[N] = {}
   /\ UNCHANGED <<vars, pendEv, conns, tasks, spawnQ, nextTick, phase, subs, subPos, addrNode,
                  lastAdd, replies, closeT, faultT, idle, ka, runStart, lastSend, quietLen,
-                 callListed, pathOut, pathIn, closingH>>
+                 callListed, pathOut, pathIn, closingH, beginT, shutIdle>>
+
+(* C08 Bounded: the wait for the endpoint to drain respects the configured bound, and the    *)
+(* whole sequence from leaving the event loop to here is not longer than that (+ slack)       *)
+TrShutIdle ==
+  /\ IsEvent("shut.idle")
+  /\ phase[N] = "closing"
+  /\ Cur.bound_ms = shutIdle[N]                    \* the configured bound is the one applied
+  /\ Cur.t - beginT[N] <= shutIdle[N] + 100
+  /\ UNCHANGED <<vars, pendEv, conns, tasks, spawnQ, nextTick, phase, subs, subPos, addrNode,
+                 lastAdd, replies, closeT, faultT, idle, ka, runStart, lastSend, quietLen,
+                 callListed, pathOut, pathIn, closingH, beginT, shutIdle>>
+
+(* what the application observes once shutdown has returned (or all handles were dropped) *)
+TrShutdownResult ==
+  /\ IsEvent("obs.shutdown_result")
+  /\ phase[N] = "done"
+  /\ \A i \in DOMAIN Cur.results : ~Cur.results[i].hang
+  /\ \E i \in DOMAIN Cur.results : Cur.results[i].ok
+  /\ Cur.took_ms <= Cur.bound_ms + 300
+  /\ Cur.closed /\ Cur.peers = 0
+  /\ Cur.live_services = 0              \* every clone of the user's service has been dropped
+  /\ ~Cur.upgrade                       \* weak references no longer upgrade
+  /\ Cur.rebind                         \* the socket address can be bound again at once
+  /\ \A id \in DOMAIN subs : subs[id].node # N    \* subscribers have seen end-of-stream
+  /\ UNCHANGED <<vars, pendEv, conns, tasks, spawnQ, nextTick, phase, subs, subPos, addrNode,
+                 lastAdd, replies, closeT, faultT, idle, ka, runStart, lastSend, quietLen,
+                 callListed, pathOut, pathIn, closingH, beginT, shutIdle>>
+
+(* API calls issued after shutdown fail, they do not hang *)
+TrApiAfter ==
+  /\ IsEvent("obs.api_after")
+  /\ phase[N] = "done"
+  /\ ~Cur.hang /\ ~Cur.ok
+  /\ UNCHANGED <<vars, pendEv, conns, tasks, spawnQ, nextTick, phase, subs, subPos, addrNode,
+                 lastAdd, replies, closeT, faultT, idle, ka, runStart, lastSend, quietLen,
+                 callListed, pathOut, pathIn, closingH, beginT, shutIdle>>
 
 TrShutDone ==
   /\ IsEvent("shut.done")
@@ -640,7 +682,7 @@ TrShutDone ==
   /\ phase' = [phase EXCEPT ![N] = "done"]
   /\ UNCHANGED <<vars, pendEv, conns, tasks, spawnQ, nextTick, subs, subPos, addrNode, lastAdd,
                  replies, closeT, faultT, idle, ka, runStart, lastSend, quietLen, callListed,
-                 pathOut, pathIn, closingH>>
+                 pathOut, pathIn, closingH, beginT, shutIdle>>
 
 -----------------------------------------------------------------------------
 (* Quiescence: connectivity has been fault-free for longer than the idle    *)
@@ -661,7 +703,7 @@ TrQuiesce ==
   /\ quietLen' = [n \in DOMAIN evlog |-> Len(evlog[n])]
   /\ UNCHANGED <<vars, pendEv, conns, tasks, spawnQ, nextTick, phase, subs, subPos, addrNode,
                  lastAdd, replies, closeT, faultT, idle, ka, runStart, lastSend, callListed,
-                 pathOut, pathIn, closingH>>
+                 pathOut, pathIn, closingH, beginT, shutIdle>>
 
 (* C05 Converge: after a mutual dial both sides hold the same connection,   *)
 (* the one dialed by the greater identity                                   *)
@@ -673,7 +715,7 @@ TrConverged ==
      /\ conns[active[a][b].gid].d = hi
   /\ UNCHANGED <<vars, pendEv, conns, tasks, spawnQ, nextTick, phase, subs, subPos, addrNode,
                  lastAdd, replies, closeT, faultT, idle, ka, runStart, lastSend, quietLen,
-                 callListed, pathOut, pathIn, closingH>>
+                 callListed, pathOut, pathIn, closingH, beginT, shutIdle>>
 
 (* C05 Settled: no further connect / disconnect events since quiescence     *)
 TrSettled ==
@@ -681,7 +723,7 @@ TrSettled ==
   /\ \A n \in DOMAIN quietLen : Len(evlog[n]) = quietLen[n]
   /\ UNCHANGED <<vars, pendEv, conns, tasks, spawnQ, nextTick, phase, subs, subPos, addrNode,
                  lastAdd, replies, closeT, faultT, idle, ka, runStart, lastSend, quietLen,
-                 callListed, pathOut, pathIn, closingH>>
+                 callListed, pathOut, pathIn, closingH, beginT, shutIdle>>
 
 -----------------------------------------------------------------------------
 (* Events of other layers (RPC path, timeouts, raw observations) do not    *)
@@ -698,7 +740,7 @@ TrRpcCall ==
                           to |-> Cur.to])
   /\ UNCHANGED <<vars, pendEv, conns, tasks, spawnQ, nextTick, phase, subs, subPos, addrNode,
                  lastAdd, replies, closeT, faultT, idle, ka, runStart, lastSend, quietLen,
-                 pathOut, pathIn, closingH>>
+                 pathOut, pathIn, closingH, beginT, shutIdle>>
 
 TrRpcResult ==
   /\ IsEvent("obs.rpc_result")
@@ -709,7 +751,7 @@ TrRpcResult ==
   /\ callListed' = Without(callListed, Cur.nonce)
   /\ UNCHANGED <<vars, pendEv, conns, tasks, spawnQ, nextTick, phase, subs, subPos, addrNode,
                  lastAdd, replies, closeT, faultT, idle, ka, runStart, lastSend, quietLen,
-                 pathOut, pathIn, closingH>>
+                 pathOut, pathIn, closingH, beginT, shutIdle>>
 
 (* endpoint.accept() yielded None: the incoming connection attempt could not *)
 (* be accepted (or the endpoint is closed); the manager just loops           *)
@@ -717,7 +759,7 @@ TrAcceptNone ==
   /\ IsEvent("mgr.accept_none")
   /\ UNCHANGED <<vars, pendEv, conns, tasks, spawnQ, nextTick, phase, subs, subPos, addrNode,
                  lastAdd, replies, closeT, faultT, idle, ka, runStart, lastSend, quietLen,
-                 callListed, pathOut, pathIn, closingH>>
+                 callListed, pathOut, pathIn, closingH, beginT, shutIdle>>
 
 (* datagram activity between two addresses, reported by the fabric (rate limited) *)
 TrPath ==
@@ -729,7 +771,7 @@ TrPath ==
      ELSE UNCHANGED <<pathOut, pathIn>>
   /\ UNCHANGED <<vars, pendEv, conns, tasks, spawnQ, nextTick, phase, subs, subPos, addrNode,
                  lastAdd, replies, closeT, faultT, idle, ka, runStart, lastSend, quietLen,
-                 callListed, closingH>>
+                 callListed, closingH, beginT, shutIdle>>
 
 (* The handler of a connection that ended removes the peer first and only   *)
 (* then shuts its in-flight request tasks down (that order is what makes the *)
@@ -740,19 +782,19 @@ TrSrvEnd ==
   /\ IF N \in DOMAIN closingH THEN closingH[N] # Cur.gid ELSE TRUE
   /\ UNCHANGED <<vars, pendEv, conns, tasks, spawnQ, nextTick, phase, subs, subPos, addrNode,
                  lastAdd, replies, closeT, faultT, idle, ka, runStart, lastSend, quietLen,
-                 callListed, pathOut, pathIn, closingH>>
+                 callListed, pathOut, pathIn, closingH, beginT, shutIdle>>
 
 TrRpcOpen ==
   /\ IsEvent("rpc.open")
   /\ lastSend' = With(lastSend, <<N, Cur.gid>>, Cur.t)
   /\ UNCHANGED <<vars, pendEv, conns, tasks, spawnQ, nextTick, phase, subs, subPos, addrNode,
                  lastAdd, replies, closeT, faultT, idle, ka, runStart, quietLen, callListed,
-                 pathOut, pathIn, closingH>>
+                 pathOut, pathIn, closingH, beginT, shutIdle>>
 
 Ignored == {"conn.new", "tmo.set", "tmo.fire", "rpc.finish", "rpc.recv", "rpc.drop",
             "srv.accept", "srv.decoded", "srv.ret", "srv.end",
             "app.start", "app.end", "app.drop",
-            "obs.connect_call", "obs.disconnect", "h.exit", "shut.idle", "shut.rebound",
+            "obs.connect_call", "obs.disconnect", "h.exit", "shut.rebound",
             "obs.note", "obs.sub_lagged", "obs.known_finding", "adv.stream", "app.hostile",
             "app.hostile_end", "obs.alive", "obs.rpc_quiet", "obs.rpc_cfg", "obs.rpc_abandon"}
 
@@ -760,7 +802,7 @@ TrIgnored ==
   /\ l <= Len(Rec) /\ Cur.ev \in Ignored /\ l' = l + 1 /\ now' = Cur.t
   /\ UNCHANGED <<vars, pendEv, conns, tasks, spawnQ, nextTick, phase, subs, subPos, addrNode,
                  lastAdd, replies, closeT, faultT, idle, ka, runStart, lastSend, quietLen,
-                 callListed, pathOut, pathIn, closingH>>
+                 callListed, pathOut, pathIn, closingH, beginT, shutIdle>>
 
 TraceNext ==
   \/ TrReset \/ TrNodeStart \/ TrAddr \/ TrMgrStart \/ TrKnownInsert \/ TrKnownRemove \/ TrFault
@@ -771,7 +813,8 @@ TraceNext ==
   \/ TrApEvent \/ TrApAdd \/ TrMgrResult \/ TrApRemove \/ TrApRemoveId \/ TrHStart \/ TrHClosing
   \/ TrApSubscribe \/ TrObsSubscribe \/ TrObsEvent \/ TrSubClosed \/ TrObsPeers
   \/ TrConnectResult \/ TrConnectRefused \/ TrConnectAborted
-  \/ TrShutBegin \/ TrShutClosed \/ TrShutAborted \/ TrShutJoined \/ TrShutDone
+  \/ TrShutBegin \/ TrShutClosed \/ TrShutAborted \/ TrShutJoined \/ TrShutIdle \/ TrShutDone
+  \/ TrShutdownResult \/ TrApiAfter
   \/ TrQuiesce \/ TrConverged \/ TrSettled \/ TrAcceptNone \/ TrSrvEnd \/ TrPath \/ TrRpcCall \/ TrRpcResult \/ TrRpcOpen \/ TrIgnored
 
 TraceSpec == TraceInit /\ [][TraceNext]_allvars
